@@ -257,32 +257,44 @@ class KWay:
     def analyse(self):
         body = self.body
         fors = [s for s in body if tname(s) == "ForInStatNode"]
-        if len(fors) != 2:
-            raise Undecided("the loop body holds %d for-loops (schema: one scan, one advance)" % len(fors))
-        scan, adv = fors
-        i_scan, i_adv = body.index(scan), body.index(adv)
-        # ---- roles from the advance loop: P[A] += 1 under cursor/limit/head tests
-        A2, lo2, hi2 = self.range_loop(adv)
-        adv_body = stmts(adv.body)
-        incs = [x for x in walk(adv.body) if tname(x) == "InPlaceAssignmentNode" and tname(unwrap(x.lhs)) == "MemoryViewIndexNode"]
-        if len(incs) != 1:
-            raise Undecided("the advance loop holds %d in-place stores" % len(incs))
-        P = unwrap(unwrap(incs[0].lhs).base).name
-        # LIM: the memoryview compared with P[A]; V: the memoryview indexed by P[A]
-        LIM = V = None
-        for p in paths(adv_body, Env()):
-            for c, pol in p.conds:
-                for lit in _lits(c):
-                    for x, y in ((lit[2], lit[3]), (lit[3], lit[2])):
-                        if x == ("idx", P, ("var", A2)) and y[0] == "idx" and y[2] == ("var", A2):
-                            LIM = y[1]
-                        if x[0] == "idx" and x[2] == ("idx", P, ("var", A2)):
-                            V = x[1]
-        if LIM is None or V is None:
-            raise Undecided("cannot find the limit / value buffers in the advance loop")
-        # ---- scan loop roles: carried scalars M (marker) and mv (minimum)
+        if len(fors) not in (1, 2):
+            raise Undecided("the loop body holds %d for-loops (schema: one scan, and one advance loop or an advance of the selected array)" % len(fors))
+        scan = fors[0]
+        adv = fors[1] if len(fors) == 2 else None
+        i_scan = body.index(scan)
+        # ---- roles from the scan loop: V[P[A]] is read, P[A] is compared with LIM[A]
         A1, lo1, hi1 = self.range_loop(scan)
         scan_body = stmts(scan.body)
+        P = LIM = V = None
+
+        def _find(t):
+            nonlocal P, V
+            if isinstance(t, tuple):
+                if len(t) == 3 and t[0] == "idx" and isinstance(t[2], tuple) and len(t[2]) == 3 and t[2][0] == "idx" and t[2][2] == ("var", A1):
+                    V, P = t[1], t[2][1]
+                for x in t:
+                    _find(x)
+        for p in paths(scan_body, Env()):
+            for c, pol in p.conds:
+                _find(c)
+            for tgt, v, line in p.effects:
+                _find(v)
+        if P is not None:
+            for p in paths(scan_body, Env()):
+                for c, pol in p.conds:
+                    for lit in _lits(c):
+                        for x, y in ((lit[2], lit[3]), (lit[3], lit[2])):
+                            if x == ("idx", P, ("var", A1)) and y[0] == "idx" and y[2] == ("var", A1):
+                                LIM = y[1]
+        if P is None or LIM is None or V is None:
+            raise Undecided("cannot find the cursor / limit / value buffers in the scan loop")
+        if adv is not None:
+            A2, lo2, hi2 = self.range_loop(adv)
+            adv_body = stmts(adv.body)
+            incs = [x for x in walk(adv.body) if tname(x) == "InPlaceAssignmentNode" and tname(unwrap(x.lhs)) == "MemoryViewIndexNode"]
+            if len(incs) != 1 or unwrap(unwrap(incs[0].lhs).base).name != P:
+                raise Undecided("the advance loop does not hold exactly one in-place store into the cursors")
+        # ---- scan loop roles: carried scalars M (marker) and mv (minimum)
         assigned = {}
         for p in paths(scan_body, Env()):
             for tgt, v, line in p.effects:
@@ -321,7 +333,7 @@ class KWay:
         roles = {"P": P, "LIM": LIM, "V": V, "M": M, "mv": mv, "reset": reset, "marker_values": sorted(mvals - {reset}) or [0]}
         self.roles = roles
         # ---- loop ranges
-        for nm, (A, lo, hi, s) in (("scan", (A1, lo1, hi1, scan)), ("advance", (A2, lo2, hi2, adv))):
+        for nm, (A, lo, hi, s) in ((("scan", (A1, lo1, hi1, scan)), ("advance", (A2, lo2, hi2, adv))) if adv is not None else (("scan", (A1, lo1, hi1, scan)),)):
             self.range_ok = getattr(self, "range_ok", {})
             self.add("PROVED" if lo == ("int", 0) else "VIOLATED", "range", s.pos[1], "the %s loop starts at array 0" % nm, "range(%s, ...)" % (lo,),
                      None if lo == ("int", 0) else {"inputs": "[[1], [2]]: array 0 is never %s" % ("looked at" if nm == "scan" else "advanced")})
@@ -360,6 +372,7 @@ class KWay:
                                  "the outcome differs with the comparison although one side is undefined there", {"inputs": "[[3], [1]]"})
         # ---- statements between scan and the end: EXIT, EMIT, ADVANCE
         mids = [s for i, s in enumerate(body) if i > i_scan and s is not adv]
+        self._head, self._A1 = head, A1
         # EXIT: first statement after the scan
         if not mids or tname(mids[0]) != "IfStatNode":
             self.add("VIOLATED" if not any(tname(x) == "BreakStatNode" for x in walk(self.loop.body)) else "UNDECIDED", "exit", line0, "the loop ends when a scan selects nothing", "no `if <marker test>: break` directly after the scan",
@@ -377,6 +390,8 @@ class KWay:
             ok = br == F
             self.add("PROVED" if ok else "VIOLATED", "exit", ex.pos[1], "exit test [%s]" % ("nothing selected" if F else "a head was selected"), "leaves the loop" if br else "goes on",
                      None if ok else {"inputs": "[[1, 2]] -> %s" % ("[] (the loop stops although a value was selected)" if br else "never terminates / writes past the buffer (the loop goes on after all arrays are exhausted)")})
+        if adv is None:
+            return self.variant_b(mids[1:], roles, line0)
         # EMIT: the remaining straight-line statements (before or after the advance loop)
         rest = [s for s in mids[1:]]
         ps = list(paths(rest, Env()))
@@ -459,6 +474,116 @@ class KWay:
             sig = {tuple(str(x) for x in t2[(E, C)].effects) for C in ("lt", "eq", "gt")}
             if len(sig) != 1:
                 self.add("VIOLATED", "advance", adv.pos[1], "advance: no dependence on the head of an exhausted array", "the outcome differs with a value read at the limit", {"inputs": "[[1], [1, 2]]"})
+        return self
+
+    # ------------------------------------------------------------------ variant B: advance the selected array only
+    def variant_b(self, rest, roles, line0):
+        """After scan and exit: `P[marker] += 1` every round, and the minimum is emitted unless it repeats the value
+        emitted last.  Atoms: Z (nothing emitted yet: count == 0) and D (minimum vs last emitted: eq / ne).  Required:
+        emit iff Z or D=ne; an emission stores OUT[count] = minimum, count += 1 and last = minimum."""
+        P, M, mv = roles["P"], roles["M"], roles["mv"]
+        ps = list(paths(rest, Env()))
+        # names
+        stores = {tgt for p in ps for tgt, v, l in p.effects if tgt[0] == "idx" and tgt[1] != P}
+        if len({t[1] for t in stores}) != 1:
+            raise Undecided("variant B: %d output buffers written" % len({t[1] for t in stores}))
+        OUT = list(stores)[0][1]
+        idxs = {t[2] for t in stores}
+        if len(idxs) != 1 or list(idxs)[0][0] != "var":
+            raise Undecided("variant B: emission index %s" % (idxs,))
+        n = list(idxs)[0][1]
+        self.roles["OUT"], self.roles["n"] = OUT, n
+        lasts = {tgt[1] for p in ps for tgt, v, l in p.effects if tgt[0] == "var" and tgt[1] not in (n, M, mv) and v == ("var", mv)}
+        if not lasts:
+            # a scalar the minimum is compared with, although it is never assigned from it
+            for p in ps:
+                for c, pol in p.conds:
+                    for lit in _lits(c):
+                        for x, y in ((lit[2], lit[3]), (lit[3], lit[2])):
+                            if x == ("var", mv) and y[0] == "var" and y[1] not in (n, M, mv):
+                                lasts.add(y[1])
+        if len(lasts) != 1:
+            raise Undecided("variant B: cannot identify the `last emitted` scalar (%s)" % sorted(lasts))
+        last = lasts.pop()
+
+        def holds(c, Z, D):
+            k = c[0]
+            if k == "const":
+                return c[1]
+            if k == "not":
+                return not holds(c[1], Z, D)
+            if k == "and":
+                return holds(c[1], Z, D) and holds(c[2], Z, D)
+            if k == "or":
+                return holds(c[1], Z, D) or holds(c[2], Z, D)
+            _, op, a, b = c
+            ev = {"==": lambda r: r == "eq", "!=": lambda r: r != "eq"}
+            for x, y, o in ((a, b, op), (b, a, FLIP[op])):
+                if x == ("var", mv) and y == ("var", last) and o in ev:
+                    return ev[o](D)
+                if x == ("var", n) and y[0] == "int":
+                    pyop = {"<": lambda u, v: u < v, "<=": lambda u, v: u <= v, ">": lambda u, v: u > v, ">=": lambda u, v: u >= v, "==": lambda u, v: u == v, "!=": lambda u, v: u != v}[o]
+                    t0 = pyop(0, y[1])
+                    oth = {pyop(v, y[1]) for v in (1, 2, 9)}
+                    if len(oth) != 1:
+                        raise Undecided("count test %s %s %d" % (n, o, y[1]))
+                    return t0 if Z else oth.pop()
+            raise Undecided("variant B: condition outside the decision table: %s" % (c,))
+
+        consults_Z = any(x == ("var", n) for p in ps for c, pol in p.conds for lit in _lits(c) for x in (lit[2], lit[3]))
+        # a sentinel outside the element domain makes (Z, D=eq) impossible
+        init_last = None
+        for x in walk(self.f.node.body):
+            if tname(x) == "SingleAssignmentNode" and tname(unwrap(x.lhs)) == "NameNode" and unwrap(x.lhs).name == last and x.pos[1] < self.loop.pos[1]:
+                try:
+                    init_last = expr(x.rhs, Env())
+                except Undecided:
+                    init_last = None
+        lw = WIDTH.get(self.types.get(last, "").replace("const ", ""), 0)
+        ew = WIDTH.get(self.types.get(mv, "").replace("const ", ""), 32)
+        outside = init_last is not None and init_last[0] == "int" and init_last[1] < 0 and lw > ew
+        for Z in (True, False):
+            for D in ("eq", "ne"):
+                taken = [p for p in ps if all(holds(c, Z, D) == pol for c, pol in p.conds)]
+                if len(taken) != 1 or taken[0].exit != "fall":
+                    raise Undecided("variant B: %d paths for Z=%s D=%s" % (len(taken), Z, D))
+                p = taken[0]
+                em = [(tgt, v, l) for tgt, v, l in p.effects if tgt[0] == "idx" and tgt[1] == OUT]
+                sc = {tgt[1]: v for tgt, v, l in p.effects if tgt[0] == "var"}
+                advs = [(tgt, v) for tgt, v, l in p.effects if tgt[0] == "idx" and tgt[1] == P]
+                cell = "%s, minimum %s last emitted" % ("nothing emitted yet" if Z else "something emitted", "==" if D == "eq" else "!=")
+                want = Z or D == "ne"
+                if Z and D == "eq" and outside:
+                    continue
+                emitted = len(em) == 1 and em[0][0] == ("idx", OUT, ("var", n)) and em[0][1] == ("var", mv) and sc.get(n) == ("add", ("var", n), ("int", 1)) and sc.get(last) == ("var", mv)
+                nothing = not em and n not in sc and last not in sc
+                ok = emitted if want else nothing
+                line = (em[0][2] if em else line0)
+                wit = None
+                if not ok:
+                    if Z and D == "eq":
+                        wit = {"inputs": "[[%s]] -> []: the first value equals the initial value of `%s`, which is a legal element" % (init_last[1] if init_last and init_last[0] == "int" else "c", last)}
+                    elif want:
+                        wit = {"inputs": "[[1, 2]]"}
+                    else:
+                        wit = {"inputs": "[[1], [1]] -> [1, 1]"}
+                self.add("PROVED" if ok else "VIOLATED", "emit", line, "emission table [%s]" % cell, ("emits and records it" if want else "skips the repeat") if ok else
+                         ("required: %s; found: %s" % ("store the minimum at the count, count += 1, remember it" if want else "no emission",
+                                                       "no emission" if nothing else "%d store(s), count %s, last %s" % (len(em), sc.get(n), sc.get(last)))), wit)
+                okadv = len(advs) == 1 and advs[0][0] == ("idx", P, ("var", M)) and advs[0][1] == ("add", ("idx", P, ("var", M)), ("int", 1))
+                self.add("PROVED" if okadv else "VIOLATED", "advance", line0, "the selected array moves on by one every round [%s]" % cell, "cursor[marker] += 1" if okadv else "cursor updates: %s" % (advs,),
+                         None if okadv else {"inputs": "[[1, 2]] -> never terminates, or values are skipped"})
+        # element caches
+        et = self.types.get(roles["V"], "")
+        et = et[:-3] if et.endswith("[:]") else et
+        ew = WIDTH.get(et.replace("const ", ""))
+        for nm in (mv, last):
+            lt = self.types.get(nm, "")
+            lw2 = WIDTH.get(lt.replace("const ", ""))
+            if ew is None or lw2 is None:
+                self.add("UNDECIDED", "types", line0, "%s can hold every element" % nm, "C type %s not in the width table" % lt)
+            else:
+                self.add("PROVED" if lw2 >= ew else "VIOLATED", "types", line0, "%s (%s) can hold every %s element" % (nm, lt, et), "", None if lw2 >= ew else {"inputs": "[[1, 4294967295]]"})
         return self
 
     # ------------------------------------------------------------------ prelude / epilogue
